@@ -60,6 +60,51 @@ func (d *driver) ckksExtra(lit ckks.ParametersLiteral, name string) {
 				}
 			}
 		}
+		// (a') boundary of the float64 fixed-point conversion: |value| * scale = 2^64 exactly, and its neighbours
+		// (scale 2^55, value 2^9; units of 2^-20 keep these below 2^31), coefficient domain and constant slot vectors
+		if p.MaxLevel() > 0 {
+			lvl, lgScale := p.MaxLevel(), 55
+			for _, dom := range []string{"coef", "slots"} {
+				for _, base := range []int64{512, -512, 256, 1024} {
+					cnt := 8
+					vals := make([][2]int64, cnt)
+					f := make([]float64, cnt)
+					for i := range f {
+						re := base * 1048576
+						switch {
+						case dom == "coef" && i%3 == 1:
+							re += int64(i) // just above / below the boundary
+						case dom == "coef" && i%3 == 2:
+							re -= int64(i)
+						}
+						vals[i] = [2]int64{re, 0}
+						f[i] = float64(re) / 1048576
+					}
+					pt := ckks.NewPlaintext(p, lvl)
+					pt.IsBatched = dom == "slots"
+					if dom == "slots" {
+						pt.LogDimensions = ring.Dimensions{Rows: 0, Cols: 3}
+					}
+					pt.Scale = rlwe.NewScale(math.Ldexp(1, lgScale))
+					out := make([][2]int64, cnt)
+					err, pan, msg := guarded(func() error {
+						if err := ecd.Encode(f, pt); err != nil {
+							return err
+						}
+						o := make([]float64, cnt)
+						if err := ecd.Decode(pt, o); err != nil {
+							return err
+						}
+						for i := range o {
+							out[i] = [2]int64{fix(o[i]), 0}
+						}
+						return nil
+					})
+					d.emit(ev{"ev": "approx", "set": name, "dom": dom + "-2^64", "vals": vals, "out": out, "lgscale": lgScale, "lgn": lgN, "prec": int(prec), "logprec": 0,
+						"ity": "f64", "oty": "f64", "slots": cnt, "lvl": lvl, "err": err != nil, "panic": pan, "msg": msg})
+				}
+			}
+		}
 		// (b) the product of two encodings decodes to the slot-wise product (values in sixteenths, result in 1/256)
 		for logSlots := 0; logSlots <= p.LogMaxSlots(); logSlots += maxInt(1, p.LogMaxSlots()/3) {
 			if isReal && logSlots == 0 {
